@@ -47,7 +47,7 @@ PROPS = {
                 state=kinds("RQ", "CX", "AB", "AI"), effects=eff("ev", "transfer"), errnames=False),
     "C07": dict(profiles=["money", "bindings"], monitors=["issueLaw", "volumeLaw"],
                 state=kinds("RQ", "VO", "PR", "B"), effects=eff("transfer"), errnames=False),
-    "C08": dict(profiles=["lifecycle", "money"], monitors=["respondLaw", "rejectedNoChange", "settlement", "requests"],
+    "C08": dict(profiles=["lifecycle", "money", "modules"], monitors=["respondLaw", "rejectedNoChange", "settlement", "requests"],
                 state=kinds("AI", "AB", "RS", "RQ"), effects=eff("transfer", "slash"), errnames=True),
     "C09": dict(profiles=["lifecycle", "modules"], monitors=["lifecycle"],
                 state=kinds("CX"), effects=eff("ev", "statecb"), errnames=True),
